@@ -29,7 +29,7 @@ META = {
     "outside": "messages longer than 1029 bytes (the induction is stated up to the maximum frame size)",
     "assumptions": ["induction on message length composes the per-step lemmas (stated, not mechanised)", "reference CRC: schoolbook long division and table form, mutually checked"],
 }
-WALL_BUDGET = {"quick": 480, "thorough": 3000}
+WALL_BUDGET = {"quick": 900, "thorough": 3000}
 
 
 def jobs(tier, seed):
